@@ -16,15 +16,31 @@ EXPLANATION = ("Every public constructor/setter of Rotation_<double> is executed
                "R(convert(R)) = R for convertOneAxisRotationToOneAngle, convertTwoAxesRotationToTwoAngles (9 pairs x body/space), convertThreeAxesRotationToThreeAngles (27 triples x body/space, "
                "plus the gimbal-lock branches with the middle angle exactly singular), convertRotationToQuaternion (all four Spurrier branches are reached) and convertRotationToAngleAxis; "
                "returned quaternions have unit norm, returned axes unit length, the angle lies in [-pi,pi]; composition/inversion/re-expression of Rotation, InverseRotation, Transform, InverseTransform "
-               "agree with 3x3 / 4x4 matrix algebra; quaternion product maps to rotation product. The (S,C) pairs of atan2 results are eliminated exactly from equality goals "
-               "(multiply by r^d, r = sqrt(x^2+y^2) > 0), inverse variables by exact denominator clearing.")
+               "agree with 3x3 / 4x4 matrix algebra; quaternion product maps to rotation product. Every equality goal is brought to polynomial normal form by exact spec-side algebra "
+               "before it is sent to the solver: the (S,C) pair of an atan2 result is eliminated (multiply by r^d, r = sqrt(x^2+y^2) > 0), a square-root variable r with r^2 = p^2 is replaced by +-p when "
+               "the executed path contains the sign literal of p (or by a rational when its radicand is a perfect-square constant, possibly after clearing inverses: the premise is an obligation of "
+               "its own; the step r>=0, p>=0, r^2=p^2 => r=p is elementary and not re-proved), inverse variables are cleared exactly (goal * den^k). Solver twins (deliberately wrong goals) are used "
+               "on the light instances; on the conversion-heavy ones (quat, angleaxis, rt) the wrong variant is only checked not to be an identity, because a twin needs a model of the whole "
+               "path condition.")
 BOUNDS = ("all inputs of an instance simultaneously free (free set ALL: every angle, vector and quaternion component is a solver variable) except: gimbal-lock instances (middle angle pinned at "
-          "exactly +-pi/2 resp. 0, other two free); paths per instance explored by flipping decisions up to the budget (quick 12 / thorough 40); double precision")
+          "exactly +-pi/2 resp. 0, other two free) and the quaternion-product instance (one quaternion free, the other pinned at an exactly unit rational point, both ways); paths per instance explored "
+          "by flipping decisions up to the budget (quick 8 / thorough 40); the quaternion/angle-axis round trips of a general rotation run at 7 chosen base points that execute the four Spurrier "
+          "branches with both canonicalisation signs, all three angles free on each; double precision")
 NOT_COVERED = ("float instantiations; angles -> R -> angles (uniqueness inside the principal domain; only R(convert(R)) = R is proved); setRotationFromApproximateMat33 on a non-orthogonal matrix "
                "(only exact rotations are fed: then it must return the same rotation); the approximately singular neighbourhood |cos| <= 4 eps of the Euler conversions (only the exactly singular "
-               "configuration); isSameRotationToWithinAngle; rounding")
+               "configuration); the 'no rotation' branches |angle| < eps of setQuaternionFromAngleAxis and |sin(a/2)| < eps^2 of convertQuaternionToAngleAxis (results there are "
+               "approximate by design); the nearly-parallel fallback of setRotationFromTwoAxes is only required to give a proper rotation with the given first axis; 'closest to v' direction of the "
+               "second axis (only coplanarity is proved); isSameRotationToWithinAngle; rounding")
 
 AX = "XYZ"
+# (a0, a1, a2) seeds of the round-trip instances: generic (trace branch); rotations by +-(pi-0.35) mostly about x, y, z (diagonal branches, q0 of either sign)
+RT_SEEDS = [(0.4, -0.6, 0.9), (2.8, 0.2, -0.3), (-2.8, 0.2, -0.3), (0.25, 2.8, 0.2), (0.25, -2.8, 0.2), (0.2, -0.3, 2.8), (0.2, -0.3, -2.8)]
+
+
+def adjust_seeds(inst, seeds, angle_pins, rng, g):
+    if inst["name"].startswith("rt:"):
+        for k, v in zip(("a0", "a1", "a2"), RT_SEEDS[g % len(RT_SEEDS)]):
+            seeds[k] = v
 
 
 def instances(tier, seed):
@@ -40,11 +56,13 @@ def instances(tier, seed):
             if j != i and j != k:
                 for sg in ("+", "-") if i != k else ("+",):
                     out.append(dict(name="lock:%s:%s%s%s%s" % (t, i, j, k, sg), args=["lock", t, i, j, k, sg], paths=1, base_points=1))
-    # quaternion / angle-axis round trips of a general rotation (all three angles free); the path budget is what reaches the four Spurrier branches
-    out.append(dict(name="rt:B:XYZ", args=["three", "B", "X", "Y", "Z", "rt"], paths=2 * np_, base_points=1))
-    out.append(dict(name="rt:S:ZXZ", args=["three", "S", "Z", "X", "Z", "rt"], paths=np_, base_points=1))
-    out.append(dict(name="angleaxis", args=["angleaxis"], paths=np_, base_points=1))
-    out.append(dict(name="quat", args=["quat"], paths=np_, base_points=1))
+    # quaternion / angle-axis round trips of a general rotation (all three angles free). The base points are chosen (adjust_seeds) so that the executed paths
+    # are the four Spurrier branches with both signs of the canonicalisation; no flipping (every query carries the path condition and flips are slow here)
+    out.append(dict(name="rt:B:XYZ", args=["three", "B", "X", "Y", "Z", "rt"], paths=1, base_points=len(RT_SEEDS)))
+    if tier == "thorough":
+        out.append(dict(name="rt:S:ZXZ", args=["three", "S", "Z", "X", "Z", "rt"], paths=1, base_points=len(RT_SEEDS)))
+    out.append(dict(name="angleaxis", args=["angleaxis"], paths=np_, base_points=1, flip_timeout_ms=1500, flips_per_path=8))
+    out.append(dict(name="quat", args=["quat"], paths=np_, base_points=1, flip_timeout_ms=1500, flips_per_path=8))
     for a in AX:
         out.append(dict(name="oneaxis:%s" % a, args=["oneaxis", a], paths=np_, base_points=1))
     for i, j in itertools.product(AX, AX):
@@ -57,10 +75,14 @@ def instances(tier, seed):
 def free_sets(inst, tr, tier, rng):
     if tr.note("mode") == "lock":
         return [["a0", "a2"]]
+    if tr.note("mode") == "quat":
+        # one quaternion free (all four components), the other pinned at its exactly-unit default: denominators (|e|^2 |f|^2)^k with both free blow the
+        # cleared polynomials up to 10^5 terms
+        return [["e0", "e1", "e2", "e3"], ["f0", "f1", "f2", "f3"]]
     return ["ALL"]
 
 
-def input_domain(enc, inst):
+def flip_domain(enc, inst):
     """box for the seeds of flipped paths: components in [-4,4], vectors / quaternions away from zero (|.|^2 >= 1/16): the normalising constructors'
     precondition; the zero-vector / tiny-vector error branches (NaN results) are outside the property"""
     cons = []
@@ -97,12 +119,36 @@ def elem(L, axis, c, s):
     return M
 
 
-def proper(L, name, R, elim=False):
-    """R^T R = I and det R = 1"""
-    RtR = L.mm(L.T(R), R)
-    pairs = [(RtR[i][j], P.const(1 if i == j else 0)) for i in range(3) for j in range(i, 3)]
-    pairs.append((L.det3(R), P.const(1)))
-    return (eqs_elim if elim else eqs)(L.enc, name + ": R^T R = I and det R = +1", pairs)
+class Ctx:
+    """per-path helper: every equality goal is normalised exactly (atan2 pairs eliminated, square roots simplified on this path, denominators cleared);
+    deliberately wrong twins are attached to the first few obligations of a path only (a twin needs a model of the whole path condition: slow on the
+    conversion paths)"""
+
+    def __init__(self, enc, L, ntwins=3):
+        self.enc, self.L = enc, L
+        self.rs = RootSimplifier(enc)
+        self.obs = list(self.rs.lemmas())
+        self.ntwins = ntwins
+
+    def E(self, name, pairs, hyps=()):
+        ob = eqs_elim(self.enc, name, pairs, hyps=hyps, roots=self.rs, clear=True, twin=True)
+        if ob.twin is not None:
+            if self.ntwins > 0:
+                self.ntwins -= 1
+            else:
+                # no solver twin (too slow here): at least the deliberately wrong variant lhs = 2 rhs must not normalise to the zero polynomial
+                if not ob.twin[0].p:
+                    raise RuntimeError("degenerate obligation (the wrong twin is an identity): " + name)
+                ob.twin = None
+        self.obs.append(ob)
+
+    def proper(self, name, R):
+        """R^T R = I and det R = 1"""
+        L = self.L
+        RtR = L.mm(L.T(R), R)
+        pairs = [(RtR[i][j], P.const(1 if i == j else 0)) for i in range(3) for j in range(i, 3)]
+        pairs.append((L.det3(R), P.const(1)))
+        self.E(name + ": R^T R = I and det R = +1", pairs)
 
 
 def flat(A, B):
@@ -113,19 +159,19 @@ def sc(L, n):
     return L.out("sin_" + n), L.out("cos_" + n)
 
 
-def round_trip_obs(L, obs, R, rng=True):
+def round_trip_obs(C, L, obs, R, rng=True):
     """obligations for the outputs of roundTrips(R) in the harness"""
     enc = L.enc
     cq = L.vec("cq", 4)
-    obs.append(eq(enc, "convertRotationToQuaternion: |q|^2 = 1", L.dot(cq, cq), P.const(1)))
-    obs.append(eqs(enc, "Rotation(convertRotationToQuaternion(R)) = R", flat(L.mat("Rq", 3, 3), R)))
-    obs.append(eqs(enc, "Quaternion(R) = R.convertRotationToQuaternion()", list(zip(L.vec("cq2", 4), cq))))
-    obs.append(eqs(enc, "setRotationFromApproximateMat33(exact rotation) = R", flat(L.mat("Rap", 3, 3), R)))
+    C.E("convertRotationToQuaternion: |q|^2 = 1", [(L.dot(cq, cq), P.const(1))])
+    C.E("Rotation(convertRotationToQuaternion(R)) = R", flat(L.mat("Rq", 3, 3), R))
+    C.E("Quaternion(R) = R.convertRotationToQuaternion()", list(zip(L.vec("cq2", 4), cq)))
+    C.E("setRotationFromApproximateMat33(exact rotation) = R", flat(L.mat("Rap", 3, 3), R))
     aa = L.vec("aa", 4)
     ax = aa[1:]
     if any(not P.is_const(x) for x in aa):
-        obs.append(eqs_elim(enc, "convertRotationToAngleAxis: |axis|^2 = 1", [(L.dot(ax, ax), P.const(1))]))
-        obs.append(eqs_elim(enc, "Rotation(convertRotationToAngleAxis(R)) = R", flat(L.mat("Raa", 3, 3), R)))
+        C.E("convertRotationToAngleAxis: |axis|^2 = 1", [(L.dot(ax, ax), P.const(1))])
+        C.E("Rotation(convertRotationToAngleAxis(R)) = R", flat(L.mat("Raa", 3, 3), R))
         if not rng:
             return
         pi_hi = Fraction(31415937, 10 ** 7)
@@ -148,7 +194,10 @@ def obligations(enc, inst, tr):
     L = LA(enc, tr)
     mode = tr.note("mode")
     args = inst["args"]
-    obs = []
+    heavy = mode in ("quat", "angleaxis") or inst["name"].startswith("rt:")
+    nt = 0 if heavy else 2     # a solver twin needs a model of the whole path condition: very slow on the conversion paths (numeric non-degeneracy check instead)
+    C = Ctx(enc, L, ntwins=nt)
+    obs = C.obs
     I3 = L.eye(3)
     if mode == "one":
         a = AX.index(args[1])
@@ -156,10 +205,10 @@ def obligations(enc, inst, tr):
         Rref = elem(L, a, c, s)
         R = L.mat("R", 3, 3)
         for nm, what in (("R", "Rotation(angle, CoordinateAxis)"), ("Rt", "Rotation(angle, %sAxis)" % args[1]), ("Rs", "setRotationFromAngleAbout%s(cos,sin)" % args[1]), ("Rm", "setRotationFromAngleAbout%s(angle)" % args[1])):
-            obs.append(eqs(enc, what + " = elementary rotation matrix", flat(L.mat(nm, 3, 3), Rref)))
-        obs.append(proper(L, "Rotation(angle, axis)", R))
-        obs.append(eqs_elim(enc, "Rotation(convertOneAxisRotationToOneAngle(R)) = R", flat(L.mat("Rrt", 3, 3), R)))
-        round_trip_obs(L, obs, R)
+            C.E(what + " = elementary rotation matrix", flat(L.mat(nm, 3, 3), Rref))
+        C.proper("Rotation(angle, axis)", R)
+        C.E("Rotation(convertOneAxisRotationToOneAngle(R)) = R", flat(L.mat("Rrt", 3, 3), R))
+        round_trip_obs(C, L, obs, R)
     elif mode == "two":
         body = args[1] == "B"
         i, j = AX.index(args[2]), AX.index(args[3])
@@ -167,12 +216,9 @@ def obligations(enc, inst, tr):
         E0, E1 = elem(L, i, c0, s0), elem(L, j, c1, s1)
         Rref = L.mm(E0, E1) if body else L.mm(E1, E0)
         R = L.mat("R", 3, 3)
-        obs.append(eqs(enc, "two-angle %s sequence = product of elementary rotations" % ("body" if body else "space"), flat(R, Rref)))
-        obs.append(proper(L, "two-angle rotation", R))
-        L.out("Rrt_0_0")        # make sure every node (and root variable) of the conversion is encoded
-        rs = RootSimplifier(enc)
-        obs.extend(rs.lemmas())
-        obs.append(eqs_elim(enc, "Rotation(convertTwoAxesRotationToTwoAngles(R)) = R", flat(L.mat("Rrt", 3, 3), R), roots=rs))
+        C.E("two-angle %s sequence = product of elementary rotations" % ("body" if body else "space"), flat(R, Rref))
+        C.proper("two-angle rotation", R)
+        C.E("Rotation(convertTwoAxesRotationToTwoAngles(R)) = R", flat(L.mat("Rrt", 3, 3), R))
     elif mode in ("three", "lock"):
         body = args[1] == "B"
         i, j, k = (AX.index(x) for x in args[2:5])
@@ -180,93 +226,90 @@ def obligations(enc, inst, tr):
         E0, E1, E2 = elem(L, i, c0, s0), elem(L, j, c1, s1), elem(L, k, c2, s2)
         Rref = L.mm(L.mm(E0, E1), E2) if body else L.mm(L.mm(E2, E1), E0)
         R = L.mat("R", 3, 3)
-        obs.append(eqs(enc, "three-angle %s sequence = product of elementary rotations" % ("body" if body else "space"), flat(R, Rref)))
-        obs.append(proper(L, "three-angle rotation", R))
+        C.E("three-angle %s sequence = product of elementary rotations" % ("body" if body else "space"), flat(R, Rref))
+        C.proper("three-angle rotation", R)
         # a flipped path of mode "three" may land in the |cos| <= 4 eps (resp. |sin| <= 4 eps) neighbourhood with a free middle angle: there the conversion treats the
         # configuration as exactly singular and the round trip only holds to O(eps) -- not asserted (NOT_COVERED); the exactly singular case is the "lock" instances
         singular = i != j and j != k and tr.outputs["th_2"][0] == "c"
         if mode == "lock" or not singular:
-            L.out("Rrt_0_0")
-            rs = RootSimplifier(enc)
-            obs.extend(rs.lemmas())
-            obs.append(eqs_elim(enc, "Rotation(convertThreeAxesRotationToThreeAngles(R)) = R" + (" [gimbal-lock branch]" if mode == "lock" else ""), flat(L.mat("Rrt", 3, 3), R), roots=rs))
+            C.E("Rotation(convertThreeAxesRotationToThreeAngles(R)) = R" + (" [gimbal-lock branch]" if mode == "lock" else ""), flat(L.mat("Rrt", 3, 3), R))
         if L.has_out("cq_0"):
-            round_trip_obs(L, obs, R, rng=False)
+            round_trip_obs(C, L, obs, R, rng=False)
     elif mode == "angleaxis":
         v = L.ivec("v", 3)
         u = L.vec("u", 3)
         s, c = sc(L, "a0")
-        obs.append(eq(enc, "UnitVec3(v): |u|^2 = 1", L.dot(u, u), P.const(1)))
-        obs.append(eqs(enc, "UnitVec3(v) parallel to v", list(zip(L.cross(u, v), [{}] * 3)) + [(L.vscale(u, L.dot(v, v))[n], L.vscale(v, L.dot(u, v))[n]) for n in range(3)]))
-        obs.append(eqs(enc, "UnitVec3(x,y,z) = UnitVec3(Vec3)", list(zip(L.vec("u3", 3), u))))
+        C.E("UnitVec3(v): |u|^2 = 1", [(L.dot(u, u), P.const(1))])
+        C.E("UnitVec3(v) parallel to v", list(zip(L.cross(u, v), [{}] * 3)) + [(L.vscale(u, L.dot(v, v))[n], L.vscale(v, L.dot(u, v))[n]) for n in range(3)])
+        C.E("UnitVec3(x,y,z) = UnitVec3(Vec3)", list(zip(L.vec("u3", 3), u)))
         R = L.mat("R", 3, 3)
         ux = L.crossmat(u)
         uuT = [[L.mul(u[a], u[b]) for b in range(3)] for a in range(3)]
         Rod = L.madd(L.madd(L.mscale(I3, c), L.mscale(ux, s)), L.mscale(uuT, P.sub(P.const(1), c)))
-        obs.append(eqs(enc, "Rotation(angle, unit vector) = Rodrigues formula", flat(R, Rod)))
-        obs.append(proper(L, "Rotation(angle, unit vector)", R))
-        obs.append(eqs(enc, "Rotation(angle, u) u = u", list(zip(L.mv(R, u), u))))
-        obs.append(eqs(enc, "Rotation(angle, non-unit v) = Rotation(angle, UnitVec3(v))", flat(L.mat("Rn", 3, 3), R)))
+        C.E("Rotation(angle, unit vector) = Rodrigues formula", flat(R, Rod))
+        C.proper("Rotation(angle, unit vector)", R)
+        C.E("Rotation(angle, u) u = u", list(zip(L.mv(R, u), u)))
+        C.E("Rotation(angle, non-unit v) = Rotation(angle, UnitVec3(v))", flat(L.mat("Rn", 3, 3), R))
         if tr.outputs["qa_1"][0] == "n":
-            obs.append(eqs(enc, "Rotation(setQuaternionFromAngleAxis([a v])) = Rotation(a, UnitVec3(v))", flat(L.mat("Rqa", 3, 3), R)))
-        round_trip_obs(L, obs, R)
+            C.E("Rotation(setQuaternionFromAngleAxis([a v])) = Rotation(a, UnitVec3(v))", flat(L.mat("Rqa", 3, 3), R))
+        round_trip_obs(C, L, obs, R)
     elif mode == "quat":
         q, p_, qp = L.vec("q", 4), L.vec("p", 4), L.vec("qp", 4)
         e = [L.inp("e%d" % n) for n in range(4)]
         R, Rp = L.mat("R", 3, 3), L.mat("Rp", 3, 3)
-        obs.append(eq(enc, "Quaternion(Vec4): |q|^2 = 1", L.dot(q, q), P.const(1)))
-        obs.append(eq(enc, "Quaternion(e0,e1,e2,e3): |q|^2 = 1", L.dot(p_, p_), P.const(1)))
-        obs.append(eqs(enc, "Quaternion(Vec4 e) parallel to e", [(L.mul(q[a], e[b]), L.mul(q[b], e[a])) for a in range(4) for b in range(a)]))
-        obs.append(eqs(enc, "normalize() = normalising constructor", list(zip(L.vec("qn", 4), q))))
-        obs.append(proper(L, "Rotation(Quaternion)", R))
-        obs.append(eq(enc, "quaternion product has unit norm", L.dot(qp, qp), P.const(1)))
-        obs.append(eqs(enc, "Rotation(q*p) = Rotation(q) Rotation(p)", flat(L.mat("Rqp", 3, 3), L.mm(R, Rp))))
-        round_trip_obs(L, obs, R)
+        C.E("Quaternion(Vec4): |q|^2 = 1", [(L.dot(q, q), P.const(1))])
+        C.E("Quaternion(e0,e1,e2,e3): |q|^2 = 1", [(L.dot(p_, p_), P.const(1))])
+        C.E("Quaternion(Vec4 e) parallel to e", [(L.mul(q[a], e[b]), L.mul(q[b], e[a])) for a in range(4) for b in range(a)])
+        C.E("normalize() = normalising constructor", list(zip(L.vec("qn", 4), q)))
+        C.proper("Rotation(Quaternion)", R)
+        C.E("quaternion product has unit norm", [(L.dot(qp, qp), P.const(1))])
+        C.E("Rotation(q*p) = Rotation(q) Rotation(p)", flat(L.mat("Rqp", 3, 3), L.mm(R, Rp)))
+        aq = L.vec("aq", 4)
+        if any(not P.is_const(x) for x in aq):
+            C.E("convertQuaternionToAngleAxis of a non-canonical quaternion: unit axis, Rotation(angle, axis) = Rotation(q)",
+                [(L.dot(aq[1:], aq[1:]), P.const(1))] + flat(L.mat("Raq", 3, 3), R))
+        round_trip_obs(C, L, obs, R)
     elif mode == "oneaxis":
         i = AX.index(args[1])
         R = L.mat("R", 3, 3)
         u = L.vec("u", 3)
-        obs.append(proper(L, "Rotation(UnitVec3, axis)", R))
-        obs.append(eqs(enc, "Rotation(u, axis): column(axis) = u", [(R[a][i], u[a]) for a in range(3)]))
+        C.proper("Rotation(UnitVec3, axis)", R)
+        C.E("Rotation(u, axis): column(axis) = u", [(R[a][i], u[a]) for a in range(3)])
         pp = L.vec("perp", 3)
-        obs.append(eqs(enc, "perp(): unit and perpendicular", [(L.dot(pp, pp), P.const(1)), (L.dot(pp, u), {})]))
+        C.E("perp(): unit and perpendicular", [(L.dot(pp, pp), P.const(1)), (L.dot(pp, u), {})])
     elif mode == "twoaxes":
         i, j = AX.index(args[1]), AX.index(args[2])
         R = L.mat("R", 3, 3)
         u, w = L.vec("u", 3), L.ivec("w", 3)
-        rs = RootSimplifier(enc)
-        obs.extend(rs.lemmas())
-        RtR = L.mm(L.T(R), R)
-        pairs = [(rs.apply(RtR[a][b]), P.const(1 if a == b else 0)) for a in range(3) for b in range(a, 3)] + [(rs.apply(L.det3(R)), P.const(1))]
-        obs.append(eqs(enc, "Rotation(u, axisi, v, axisj): R^T R = I and det R = +1", pairs))
-        obs.append(eqs(enc, "two-axes: column(axisi) = u", [(R[a][i], u[a]) for a in range(3)]))
+        C.proper("Rotation(u, axisi, v, axisj)", R)
+        C.E("two-axes: column(axisi) = u", [(R[a][i], u[a]) for a in range(3)])
         fallback = any("setRotationFromOneAxis" in (d[6] or "") for d in tr.decisions)      # same axis, or v (nearly) parallel to u: documented fallback to one-axis
         if i != j and not fallback:
             cj = [R[a][j] for a in range(3)]
-            obs.append(eq(enc, "two-axes: column(axisj) in the plane of u and v", L.dot(cj, L.cross(u, w)), {}, twin=False))
+            C.E("two-axes: column(axisj) in the plane of u and v", [(L.dot(cj, L.cross(u, w)), {})])
     elif mode == "algebra":
         R1, R2 = L.mat("R1", 3, 3), L.mat("R2", 3, 3)
         p1, p2, v = L.ivec("p1", 3), L.ivec("p2", 3), L.ivec("v", 3)
         R1t, R2t = L.T(R1), L.T(R2)
-        obs.append(proper(L, "R1", R1)); obs.append(proper(L, "R2", R2))
+        C.proper("R1", R1); C.proper("R2", R2)
         for nm, ref, what in (("R1R2", L.mm(R1, R2), "R1*R2"), ("R1iR2", L.mm(R1t, R2), "~R1*R2"), ("R1R2i", L.mm(R1, R2t), "R1*~R2"), ("R1iR2i", L.mm(R1t, R2t), "~R1*~R2"),
                               ("R1inv", R1t, "Rotation(~R1)"), ("R1invert", R1t, "R1.invert()"), ("R1mulEqR2", L.mm(R1, R2), "R1*=R2"), ("R1divEqR2", L.mm(R1, R2t), "R1/=R2"),
                               ("R1mulEqR2i", L.mm(R1, R2t), "R1*=~R2"), ("R1divEqR2i", L.mm(R1, R2), "R1/=~R2"), ("R1divR2", L.mm(R1, R2t), "R1/R2")):
-            obs.append(eqs(enc, "%s = matrix formula" % what, flat(L.mat(nm, 3, 3), ref)))
-        obs.append(proper(L, "R1*R2", L.mat("R1R2", 3, 3)))
-        obs.append(eqs(enc, "R*v, ~R*v, ~v*R", list(zip(L.vec("R1v", 3) + L.vec("R1iv", 3) + L.vec("vTR1", 3), L.mv(R1, v) + L.mv(R1t, v) + L.mv(R1t, v)))))
-        obs.append(eqs(enc, "x(), y(), z(), row()", list(zip(L.vec("R1x", 3) + L.vec("R1y", 3) + L.vec("R1z", 3) + L.vec("R1row1", 3), R1t[0] + R1t[1] + R1t[2] + R1[1]))))
+            C.E("%s = matrix formula" % what, flat(L.mat(nm, 3, 3), ref))
+        C.proper("R1*R2", L.mat("R1R2", 3, 3))
+        C.E("R*v, ~R*v, ~v*R", list(zip(L.vec("R1v", 3) + L.vec("R1iv", 3) + L.vec("vTR1", 3), L.mv(R1, v) + L.mv(R1t, v) + L.mv(R1t, v))))
+        C.E("x(), y(), z(), row()", list(zip(L.vec("R1x", 3) + L.vec("R1y", 3) + L.vec("R1z", 3) + L.vec("R1row1", 3), R1t[0] + R1t[1] + R1t[2] + R1[1])))
         Sv = {(0, 0): "s00", (1, 0): "s10", (1, 1): "s11", (2, 0): "s20", (2, 1): "s21", (2, 2): "s22"}
         Sm = [[L.inp(Sv[(max(a, b), min(a, b))]) for b in range(3)] for a in range(3)]
-        obs.append(eqs(enc, "reexpressSymMat33(S) = R S ~R", flat(L.mat("reexS", 3, 3), L.mm(L.mm(R1, Sm), R1t))))
-        obs.append(eqs(enc, "(~R).reexpressSymMat33(S) = ~R S R", flat(L.mat("reexSi", 3, 3), L.mm(L.mm(R1t, Sm), R1))))
+        C.E("reexpressSymMat33(S) = R S ~R", flat(L.mat("reexS", 3, 3), L.mm(L.mm(R1, Sm), R1t)))
+        C.E("(~R).reexpressSymMat33(S) = ~R S R", flat(L.mat("reexSi", 3, 3), L.mm(L.mm(R1t, Sm), R1)))
 
         def X(nm):
             return L.mat(nm + "_R", 3, 3), L.vec(nm + "_p", 3)
 
         def xeq(nm, Rr, pr, what):
             Ro, po = X(nm)
-            obs.append(eqs(enc, "%s = 4x4 matrix formula" % what, flat(Ro, Rr) + list(zip(po, pr))))
+            C.E("%s = 4x4 matrix formula" % what, flat(Ro, Rr) + list(zip(po, pr)))
 
         xeq("X1X2", L.mm(R1, R2), L.vadd(p1, L.mv(R1, p2)), "X1*X2")
         xeq("X1iX2", L.mm(R1t, R2), L.mv(R1t, L.vsub(p2, p1)), "~X1*X2")
@@ -277,22 +320,22 @@ def obligations(enc, inst, tr):
         xeq("X1inv", R1t, ip1, "Transform(~X1)")
         st = L.vadd(p1, L.mv(R1, v))
         sb = L.mv(R1t, L.vsub(v, p1))
-        obs.append(eqs(enc, "Transform station/vector maps", list(zip(L.vec("X1v", 3) + L.vec("X1iv", 3) + L.vec("X1xf", 3) + L.vec("X1xb", 3) + L.vec("X1sf", 3) + L.vec("X1sb", 3) + L.vec("X1pInv", 3),
-                                                                     st + sb + L.mv(R1, v) + L.mv(R1t, v) + st + sb + ip1))))
-        obs.append(eqs(enc, "setPInv / += / -=", list(zip(L.vec("setPInv_p", 3) + L.vec("X1plus_p", 3) + L.vec("X1plusminus_p", 3),
-                                                          [P.neg(x) for x in L.mv(R1, v)] + L.vadd(p1, v) + L.vsub(L.vadd(p1, v), p2)))))
+        C.E("Transform station/vector maps", list(zip(L.vec("X1v", 3) + L.vec("X1iv", 3) + L.vec("X1xf", 3) + L.vec("X1xb", 3) + L.vec("X1sf", 3) + L.vec("X1sb", 3) + L.vec("X1pInv", 3),
+                                                                     st + sb + L.mv(R1, v) + L.mv(R1t, v) + st + sb + ip1)))
+        C.E("setPInv / += / -=", list(zip(L.vec("setPInv_p", 3) + L.vec("X1plus_p", 3) + L.vec("X1plusminus_p", 3),
+                                                          [P.neg(x) for x in L.mv(R1, v)] + L.vadd(p1, v) + L.vsub(L.vadd(p1, v), p2))))
         M44 = [R1[a] + [p1[a]] for a in range(3)] + [[{}, {}, {}, P.const(1)]]
         M44i = [R1t[a] + [ip1[a]] for a in range(3)] + [[{}, {}, {}, P.const(1)]]
-        obs.append(eqs(enc, "toMat44", flat(L.mat("X1m44", 4, 4), M44) + flat(L.mat("X1im44", 4, 4), M44i)))
-        obs.append(eqs(enc, "Transform * Vec4", list(zip(L.vec("X1v4s", 4) + L.vec("X1v4v", 4), st + [P.const(1)] + L.mv(R1, v) + [{}]))))
+        C.E("toMat44", flat(L.mat("X1m44", 4, 4), M44) + flat(L.mat("X1im44", 4, 4), M44i))
+        C.E("Transform * Vec4", list(zip(L.vec("X1v4s", 4) + L.vec("X1v4v", 4), st + [P.const(1)] + L.mv(R1, v) + [{}])))
     elif mode == "unitvec":
         v = L.ivec("v", 3)
         u, pp, ng, ab, r, rp = (L.vec(n, 3) for n in ("u", "perp", "neg", "abs", "r", "rperp"))
-        obs.append(eqs(enc, "UnitVec3(v): unit, parallel to v", [(L.dot(u, u), P.const(1))] + list(zip(L.cross(u, v), [{}] * 3)) + [(L.vscale(u, L.dot(v, v))[n], L.vscale(v, L.dot(u, v))[n]) for n in range(3)]))
+        C.E("UnitVec3(v): unit, parallel to v", [(L.dot(u, u), P.const(1))] + list(zip(L.cross(u, v), [{}] * 3)) + [(L.vscale(u, L.dot(v, v))[n], L.vscale(v, L.dot(u, v))[n]) for n in range(3)])
         obs.append(Ob("UnitVec3(v) . v > 0", [Constraint(2, L.dot(u, v), "u.v>0")], twin=[Constraint(4, L.dot(u, v), "u.v<0 [twin]")]))
-        obs.append(eqs(enc, "perp(): unit and perpendicular", [(L.dot(pp, pp), P.const(1)), (L.dot(pp, u), {})]))
-        obs.append(eqs(enc, "negate()", list(zip(ng, [P.neg(x) for x in u]))))
-        obs.append(eqs(enc, "abs(): |.| componentwise (squares equal)", [(L.mul(ab[n], ab[n]), L.mul(u[n], u[n])) for n in range(3)]))
+        C.E("perp(): unit and perpendicular", [(L.dot(pp, pp), P.const(1)), (L.dot(pp, u), {})])
+        C.E("negate()", list(zip(ng, [P.neg(x) for x in u])))
+        C.E("abs(): |.| componentwise (squares equal)", [(L.mul(ab[n], ab[n]), L.mul(u[n], u[n])) for n in range(3)])
         obs.append(Ob("abs() >= 0", [Constraint(3, ab[n], "abs>=0") for n in range(3)], twin=[Constraint(4, ab[0], "abs<0 [twin]")]))
-        obs.append(eqs(enc, "UnitRow(~v) = ~UnitVec(v); UnitRow::perp unit and perpendicular", list(zip(r, u)) + [(L.dot(rp, rp), P.const(1)), (L.dot(rp, r), {})]))
+        C.E("UnitRow(~v) = ~UnitVec(v); UnitRow::perp unit and perpendicular", list(zip(r, u)) + [(L.dot(rp, rp), P.const(1)), (L.dot(rp, r), {})])
     return obs
